@@ -32,6 +32,34 @@ def is_untyped_int(U, l):
     return d.get("dtype") is None and isinstance(d["items"][0], int)
 
 
+def values_mistakable_for_items(U, letters, df):
+    """The strong clause covers dimensions identified only through their items 'when the values cannot be
+    mistaken for items'.  True if some non-dimension column of the frame holds exactly the item set of a
+    dimension that is not identified by name or letter in the frame (after the declared type conversion)."""
+    flat = df.reset_index() if any(n is not None for n in df.index.names) else df
+    named = set()
+    for l in letters:
+        d = build.udim(U, l)
+        if d["name"] in flat.columns or l in flat.columns:
+            named.add(l)
+    for c in flat.columns:
+        if any(c == build.udim(U, l)["name"] or c == l for l in letters):
+            continue
+        vals = list(pd.unique(flat[c]))
+        for l in letters:
+            if l in named:
+                continue
+            d = build.udim(U, l)
+            tp = build._DT[d.get("dtype")]
+            try:
+                cast = {tp(v) for v in vals} if tp is not None else set(vals)
+            except Exception:
+                continue
+            if cast == set(d["items"]):
+                return True
+    return False
+
+
 def eq_values(csv, mode):
     # CSV text is read back with pandas' round-trip float parser, so even arbitrary floats are exact
     return model.eq_exact
@@ -131,6 +159,8 @@ def run_roundtrip(desc):
             cl.append("csv")
         if am and len(df) == 0:
             raise Discard("sparse export of an all-zero array is an empty frame")
+        if xd["mode"] == "float" and values_mistakable_for_items(U, letters, df):
+            raise Discard("values can be mistaken for the items of a dimension that is not named in the frame")
         try:
             res = fd.FlodymArray.from_df(dims=build.dimset(U, desc.get("target_order") or letters), df=df, allow_missing_values=am)
         except Exception as e:
@@ -148,7 +178,7 @@ def run_roundtrip(desc):
 
 @st.composite
 def roundtrip_cases(draw):
-    U = draw(gen.universes(min_dims=draw(st.sampled_from([1, 2, 2, 3])), max_dims=4, max_len=3))
+    U = draw(gen.universes(min_dims=draw(st.sampled_from([1, 2, 2, 3])), max_dims=3, max_len=5))
     mode = draw(st.sampled_from(["coded", "coded", "float"]))
     x = draw(gen.arrays(U, modes=(mode,), min_dims=1))
     letters = x["letters"]
@@ -228,8 +258,21 @@ def run_rendered(desc):
         elif csv:
             df, _ = frames.through_csv(df, tmp)
             cl.append("csv")
+        if desc.get("year_index"):
+            # one int dimension holds calendar years and sits in an UNNAMED plain index (typical hand-made table)
+            yl = desc["year_index"]
+            yn = frames.header_of(U, yl, layout["header"].get(yl, "name"))
+            flat = df.reset_index() if any(n is not None for n in df.index.names) else df
+            if yn in flat.columns:
+                df = flat.set_index(yn)
+                df.index.name = None
+                cl.append("unnamed-year-index")
+        df_before = df.copy(deep=True)
         try:
             res = fd.FlodymArray.from_df(dims=build.dimset(U, letters), df=df)
+            require(df.equals(df_before) and list(df.columns) == list(df_before.columns) and df.index.equals(df_before.index), "from_df-modified-input-frame", f"columns {list(df_before.columns)} -> {list(df.columns)}; index {list(df_before.index)[:4]} -> {list(df.index)[:4]}")
+        except Violation:
+            raise
         except Exception as e:
             bucket = "rendered-rejected"
             if layout.get("wide") and is_untyped_int(U, layout["wide"]):
@@ -248,7 +291,7 @@ def run_rendered(desc):
 def rendered_cases(draw):
     style = draw(st.sampled_from(["named", "named", "junk"]))
     kinds = ("str", "int", "ustr", "uint")
-    U, letters, layout = draw(c12.base_frames(max_dims=4, max_len=3, header_styles=("name", "letter") if style == "named" else ("name", "letter", "junk"), kinds=kinds))
+    U, letters, layout = draw(c12.base_frames(max_dims=3, max_len=5, header_styles=("name", "letter") if style == "named" else ("name", "letter", "junk"), kinds=kinds))
     csv = draw(st.booleans())
     wide = layout.get("wide")
     # c12.base_frames never spreads an untyped int dimension; here it is part of the domain (in memory)
@@ -273,6 +316,16 @@ def rendered_cases(draw):
             pass
     mode = "coded"
     desc = {"universe": U, "letters": letters, "layout": layout, "csv": csv, "perm_seed": draw(st.one_of(st.none(), st.integers(0, 1000))), "mode": mode}
+    # a dimension of calendar years held in an unnamed plain index
+    ycand = [l for l in letters if l != wide and l not in layout["drop_single"] and (build.udim(U, l).get("dtype") == "int" or is_untyped_int(U, l))]
+    if ycand and not junk and draw(st.integers(0, 3)) == 0:
+        yl = ycand[0]
+        d_ = build.udim(U, yl)
+        d_["items"] = [1990 + 5 * i for i in range(len(d_["items"]))] if draw(st.booleans()) else [2020 + i for i in range(len(d_["items"]))][::-1]
+        layout["index"] = []
+        layout["col_order"] = None
+        desc["year_index"] = yl
+        desc["csv"] = False
     # headerless file whose first row is consumed as column names (long format, dims found by items)
     if wide is None and not junk and not layout["index"] and not layout["drop_single"] and not any(is_untyped_int(U, l) for l in letters) and draw(st.integers(0, 5)) == 0:
         layout["col_order"] = None
